@@ -67,6 +67,8 @@ var properties = map[string]*propSpec{
 		Rule: "runs of scenario uuid: 2-8 goroutines generating up to 200 time-UUIDs each at one stalled simulated instant (< 16384 per instant: the 14-bit clock sequence), tape-chosen forward clock jumps between batches; distinct = distinct canonical-log fingerprint; non-trivial = concurrent generators ran and at least one batch completed"},
 	"C20": {Level: "exploration", Scenarios: []scenRef{{Name: "sec", quickS: 25, thoroughS: 600}},
 		Rule: "runs of scenario sec: one cell of the documented TLS table (Config nil/present x InsecureSkipVerify x EnableHostVerification x ServerName x CA / key-pair file variants x certificate presented x host form) with real crypto/tls over the simulated transport, or one cell of the authentication table (class demanded x client authenticator x credentials); distinct = distinct canonical-log fingerprint; non-trivial = a non-default variant was drawn and the session attempt completed"},
+	"C16": {Level: "exploration", Scenarios: []scenRef{{Name: "topo", quickS: 25, thoroughS: 600}}, DeadlockProperty: "C17",
+		Rule: "runs of scenario topo: tape-chosen membership/event/fault histories on a cluster model, each step followed by a settle and a full comparison of ring, address index, host list, pools and policy with the model; distinct = distinct canonical-log fingerprint; non-trivial = at least one membership change or fault was applied and at least one comparison completed"},
 	"C17": {Level: "exploration", Scenarios: []scenRef{{Name: "sec", quickS: 10, thoroughS: 120}}, DeadlockProperty: "C17",
 		Rule: "(interim) runs of scenario sec observed for goroutines surviving a failed NewSession"},
 	"C11": {Level: "exploration", Scenarios: []scenRef{{Name: "pick", quickS: 15, thoroughS: 600}},
